@@ -121,6 +121,52 @@ theorem fill_eq (s : List Char) : ∀ w : Writer, w.pos ≤ w.total →
       simp only [fill, hc, if_true]
       exact ih w hw
 
+/-! ## the loop as written (iterator + `for`) is the fused loop -/
+
+theorem fillIter_none {w : Writer} {cs : List Char} (h : NormalizedIter.next cs = none) : fillIter w cs = .ok w := by
+  rw [fillIter]
+  split
+  · rfl
+  · rename_i h'; rw [h] at h'; cases h'
+
+theorem fillIter_some {w : Writer} {cs : List Char} {c : Char} {rest : List Char} (h : NormalizedIter.next cs = some (c, rest)) :
+    fillIter w cs = (w.write (String.utf8EncodeChar c)).bind fun w' => fillIter w' rest := by
+  rw [fillIter]
+  split
+  · rename_i h'; rw [h] at h'; cases h'
+  · rename_i h'; rw [h] at h'; cases h'; rfl
+
+theorem isSep_iff (c : Char) : isSep c = false ↔ (c ≠ '-' ∧ c ≠ '_' ∧ c ≠ ' ') := by
+  simp [isSep, and_assoc]
+
+/-- the fused loop of the model is the iterator-driven loop of the source -/
+theorem fillIter_eq_fill : ∀ (cs : List Char) (w : Writer), fillIter w cs = fill w cs
+  | [], w => by rw [fillIter_none rfl]; rfl
+  | c :: rest, w => by
+    cases hc : isSep c
+    · have h := (isSep_iff c).mp hc
+      have hn : NormalizedIter.next (c :: rest) = some (c.toLower, rest) := by
+        simp only [NormalizedIter.next, if_pos h]
+      rw [fillIter_some hn]
+      simp only [fill, hc, Bool.false_eq_true, if_false]
+      congr 1
+      funext w'
+      exact fillIter_eq_fill rest w'
+    · have h : ¬ (c ≠ '-' ∧ c ≠ '_' ∧ c ≠ ' ') := by
+        intro h'; rw [(isSep_iff c).mpr h'] at hc; cases hc
+      have hn : NormalizedIter.next (c :: rest) = NormalizedIter.next rest := by
+        simp only [NormalizedIter.next, if_neg h]
+      have ih := fillIter_eq_fill rest w
+      simp only [fill, hc, if_true]
+      rw [← ih]
+      cases hr : NormalizedIter.next rest with
+      | none => rw [fillIter_none (hn.trans hr), fillIter_none hr]
+      | some p => obtain ⟨c', r'⟩ := p; rw [fillIter_some (hn.trans hr), fillIter_some hr]
+
+theorem normalizeAlgIter_eq (s : List Char) : normalizeAlgIter s = normalizeAlg s := by
+  unfold normalizeAlgIter normalizeAlg
+  rw [fillIter_eq_fill]
+
 /-- `normalize_alg` against its specification: the normalised text if it fits in 64 bytes of UTF-8, else `ExceededBuffer` -/
 theorem normalizeAlg_eq (s : List Char) :
     normalizeAlg s =
@@ -652,5 +698,14 @@ def acceptAll : SigScheme where
   verify_sign := by intros; rfl
 
 def acceptAllSchemes : Schemes := { ed25519 := acceptAll, k256 := acceptAll, p256 := acceptAll, p384 := acceptAll }
+
+/- OPEN (second wave of DESIGN.md section 4 / C13, not attempted in this slice; nothing in Props depends on them):
+   * ecdsa_correct: over a model of a prime-order group with scalar field Z/n, the ECDSA verification equation accepts
+     (r, s) = (x(kG) mod n, k⁻¹(z + r d) mod n) under Q = dG.  Needs field inverses mod n and group-law lemmas (Mathlib-free: long).
+   * ed25519_S_flip_rejected: with the same R, A, M a signature with S' ≠ S (both canonical, < L) is rejected by the strict
+     verifier.  Needs the Edwards group model.
+   * sign_matches_rfc: an executable Lean specification of Ed25519 (RFC 8032) and ECDSA + RFC 6979 to serve as the oracle for
+     random keys; the harness currently uses the RFCs' own vectors (bit for bit) plus determinism and own-verification instead.
+   The laws assumed of `SigScheme` (`verify_sign`, `sign_len`, `pub_valid`) are exactly what these would discharge. -/
 
 end Askar.Sign
